@@ -40,7 +40,7 @@ def hx(b):
 
 COMMANDS = ['AUTH', 'AUTH_EXT', 'AUTH_EXT_own', 'AUTH_EXT_other', 'AUTH_EXT_empty', 'AUTH_EXT_nonhex', 'AUTH_EXT_name',
             'AUTH_COOKIE', 'AUTH_COOKIE_root', 'AUTH_COOKIE_other', 'AUTH_ANON', 'AUTH_ANON_trace', 'AUTH_ANON_badutf8', 'AUTH_BOGUS',
-            'DATA_empty', 'DATA_own', 'DATA_other', 'DATA_cookie_ok', 'DATA_cookie_wronghash', 'DATA_cookie_wrongform', 'DATA_nonhex',
+            'DATA_empty', 'DATA_own', 'DATA_other', 'DATA_cookie_ok', 'DATA_cookie_wronghash', 'DATA_cookie_prefix4', 'DATA_cookie_prefix39', 'DATA_cookie_junk', 'DATA_cookie_nohash', 'DATA_cookie_wrongform', 'DATA_nonhex',
             'CANCEL', 'ERROR', 'BEGIN', 'BEGIN_msg', 'NEGOTIATE_UNIX_FD', 'UNKNOWN', 'NONASCII', 'LONGLINE', 'lowercase']
 
 
@@ -250,6 +250,15 @@ class Session:
                     return (b'DATA ' + hx(cch + b' ' + good), ('DATA', 'COOKIE-OK'))
                 if c == 'DATA_cookie_wronghash':
                     return (b'DATA ' + hx(cch + b' ' + good[::-1]), ('DATA', b'wrong'))
+                # near misses of the right response: only the exact 40-digit hash is the correct response
+                if c == 'DATA_cookie_prefix4':
+                    return (b'DATA ' + hx(cch + b' ' + good[:4]), ('DATA', b'wrong'))
+                if c == 'DATA_cookie_prefix39':
+                    return (b'DATA ' + hx(cch + b' ' + good[:39]), ('DATA', b'wrong'))
+                if c == 'DATA_cookie_junk':
+                    return (b'DATA ' + hx(cch + b' ' + good + b'00'), ('DATA', b'wrong'))
+                if c == 'DATA_cookie_nohash':
+                    return (b'DATA ' + hx(cch + b' '), ('DATA', b'wrong'))
                 return (b'DATA ' + hx(b'onlyonefield'), ('DATA', b'wrong'))
             return (b'DATA ' + hx(b'0badc0de 0000000000000000000000000000000000000000'), ('DATA', b'wrong'))
         raise ValueError(c)
